@@ -46,8 +46,9 @@ static const double EPS = std::numeric_limits<double>::epsilon();
 
 // Tolerances (README "Tolerances and false alarms"): the documentation gives no figure for the interpolation round-off.
 // Calibrated on the unchanged tree: worst observed |value - reference| / (eps * S), S = |offset| + scale * max pixel,
-// is 0.50 (bilinear) and 2.3 (cubic, fit coefficients are several times larger than the data) -> 4 x worst, but
-// at least 16 eps relative.
+// is 1.4 (bilinear) and 0.9 (cubic); 4 x worst would be below the floor of the tolerance schedule, so the floor of
+// 16 eps relative to the value scale is used for both (headroom > 10 x, reported as *.err_over_tol).
+// The harness is linked -no-pie (registry) so that the edge signatures do not depend on the load address.
 static const double TOL_BILINEAR = 16;     // in units of eps * S
 static const double TOL_CUBIC = 16;        // in units of eps * S
 static const double TOL_CONT = 32;         // continuity across a cell boundary over one ulp of the coordinate
@@ -276,6 +277,21 @@ struct Obj {
     catch (const std::exception& e) { harness_error("valid raster " + c.r->stem + " rejected by the constructor: " + e.what()); }
   }
 };
+// A valid raster must be accepted in every mode.  Decided once per (raster, cubic, threadsafe); when it is not, the unit that
+// owns the configuration reports it and everything else about that configuration is skipped.
+static std::map<std::string, std::string> CTOR_FAIL;
+static bool constructible(const Cfg& c, std::string* why = nullptr) {
+  std::string k = c.name(); auto it = CTOR_FAIL.find(k);
+  if (it == CTOR_FAIL.end()) {
+    std::string w;
+    try { int sg = mc::crashed([&] { Geoid g(c.r->stem, TMP, c.cubic, c.ts); }); if (sg) w = "signal " + fmti(sg); }
+    catch (const std::exception& e) { w = std::string("exception: ") + e.what(); }
+    catch (...) { w = "unknown exception"; }
+    it = CTOR_FAIL.emplace(k, w).first;
+  }
+  if (why) *why = it->second;
+  return it->second.empty();
+}
 static uint64_t N_TRANS = 0, N_TRACES = 0, N_FRESH = 0, N_REWIND_FALLBACK = 0;
 static bool COUNTING = true;          // off during the per-shard redundant work (discovery, canonical tables)
 static void replay(Obj& o, const Cfg& c, const std::vector<int>& hist, unsigned char fill, std::string& key) {
@@ -309,6 +325,11 @@ static void fail(const Cfg& c, const std::string& kind, const std::string& key, 
   G->fail(c.name() + " " + key, msg, f);
 }
 
+static bool usable(const Cfg& c, bool report) {
+  std::string why; if (constructible(c, &why)) return true;
+  if (report) { fail(c, "valid-file-rejected", "constructor", "the constructor does not accept a well-formed raster: " + why); G->count("configurations_skipped_constructor_failed"); }
+  return false;
+}
 // successor keys of `ops` applied at the state with history hist (phase A; silent)
 static void succ_keys(const Cfg& c, const std::vector<int>& hist, const std::vector<int>& ops, std::vector<std::string>& out, std::vector<double>* values = nullptr) {
   Obj o; std::string key, k; replay(o, c, hist, FILL_A, key);
@@ -371,7 +392,7 @@ static void process_state(Explorer& E, const std::vector<int>& hist0, int level0
   int processed = 0;
   while (!queue.empty()) {
     Item it = queue.front(); queue.pop_front();
-    if (++processed > 64) { G->not_exhaustive("more than 64 states beyond the skeleton below one unit in " + c.name() + "; local exploration cut"); break; }
+    if (++processed > 9) { G->not_exhaustive("more than 8 states beyond the skeleton below one unit in " + c.name() + "; local exploration cut"); break; }
     const std::vector<int>& hist = it.hist;
     bool expand = expand0 && it.level < lmax;
     std::string hs = histstr(c, hist);
@@ -386,6 +407,11 @@ static void process_state(Explorer& E, const std::vector<int>& hist0, int level0
     G->count("states"); if (processed > 1) G->count("states_beyond_skeleton");
     Snap sn; sn.take(*A.g);
     if (!c.ts && !A.g->_cache && !A.g->_data.empty()) fail(c, "clear-keeps-data", "hist=" + hs, "no cache is active but _data is not empty");
+    if (A.g->_cache) {        // structural invariant rawval relies on: _data is _ysize rows of _xsize pixels
+      bool ok = A.g->_ysize > 0 && A.g->_xsize > 0 && (int)A.g->_data.size() == A.g->_ysize;
+      if (ok) for (auto& row : A.g->_data) if ((int)row.size() != A.g->_xsize) ok = false;
+      if (!ok) fail(c, "cache-shape", "hist=" + hs, "active cache whose _data is not _ysize rows of _xsize pixels (rawval would index out of bounds)");
+    }
     const int NP = c.np(), NO = expand ? c.nops() : NP;
     for (int i = 0; i < NO; ++i) {
       OpT op = c.op(i);
@@ -429,6 +455,7 @@ static const std::vector<double>& canon_of(const Raster& r, bool cubic, const La
 static void check_values(const VCfg& v) {
   const Raster& r = *v.r; const Lattice& L = *v.L; const bool cubic = v.cubic;
   Cfg c{&r, cubic, false, &L, 1};
+  if (!usable(c, true)) return;
   std::vector<int>* ocs; const std::vector<double>& V = canon_of(r, cubic, L, &ocs);
   const double S = valscale(r), tol = (cubic ? TOL_CUBIC : TOL_BILINEAR) * EPS * S;
   const std::string tag = cubic ? "cubic" : "bilinear";
@@ -537,7 +564,8 @@ static void check_values(const VCfg& v) {
 
 // ConvertHeight: documented h = N + H, H = -N + h; the two directions are mutually inverse to round-off
 static void check_convert(const Raster& r, bool cubic, bool ts, const Lattice& L) {
-  Cfg c{&r, cubic, ts, &L, 1};
+  Cfg c{&r, cubic, ts, &L, 1}; Cfg cplain{&r, cubic, false, &L, 1};
+  if (!usable(cplain, !ts) || !usable(c, true)) return;
   const std::vector<double>& V = canon_of(r, cubic, L);
   const std::vector<std::vector<int>> bases = {{}, {c.np() + (int)COPS.size() - 2}, {L.idx(1, 3)}};
   for (auto& base : bases) {
@@ -568,9 +596,35 @@ static long long stream_pos(Geoid& g) { return (long long)g._file.rdbuf()->pubse
 // cache API semantics, from two base states
 static void check_cache_api(const Raster& r, bool cubic, const Lattice& L) {
   Cfg c{&r, cubic, false, &L, 1};
+  if (!usable(c, true)) return;
   const std::vector<double>& V = canon_of(r, cubic, L);
   const int ALL = c.np() + (int)COPS.size() - 2, CLR = ALL + 1;
   const std::vector<std::vector<int>> bases = {{}, {ALL, L.idx(1, 3)}, {c.np() + cop_index(1, 1, 2, 3) /* CacheArea(-45,-90,0,90) */, L.idx(2, 1)}};
+  {
+    // documented (geoid.dox "Caching the geoid data"): "if the second and subsequent points fall within the same grid cell, the
+    // data values are not reread from the file".  Observed through the stream position, for every cell and every pair of
+    // interior lattice points of the cell.
+    Obj o; std::string key; replay(o, c, {}, FILL_A, key); ++N_TRACES;
+    std::vector<RefCell> rc;
+    std::map<std::pair<int, int>, std::vector<int>> cells;
+    for (int p = 0; p < L.nprod(); ++p) {
+      const Ax& A = L.lat[p / L.nlon()]; const Ax& B = L.lon[p % L.nlon()];
+      if ((A.kind != K_MID && A.kind != K_Q516) || (B.kind != K_MID && B.kind != K_Q516)) continue;
+      double la, lo; L.get(p, la, lo); ref_values(r, cubic, la, lo, rc);
+      if (rc.size() == 1) cells[{((rc[0].ix % r.w) + r.w) % r.w, rc[0].iy}].push_back(p);
+    }
+    for (auto& kv : cells) for (int p1 : kv.second) for (int p2 : kv.second) {
+      Ctx::Case cs(*G);
+      Res q1 = apply(*o.g, c.op(p1)); o.g->_file.rdbuf()->pubseekpos(0, std::ios::in);
+      Res q2 = apply(*o.g, c.op(p2)); N_TRANS += 2; ++N_TRACES; G->count("same_cell_pairs");
+      long long pos = (q1.oc == 3 || q2.oc == 3) ? -1 : stream_pos(*o.g);
+      std::string ks = "op=" + opstr(c.op(p1)) + " then " + opstr(c.op(p2));
+      if (q1.oc != 0 || q2.oc != 0 || !same_value(q2.v, V[p2])) fail(c, "history-dependence", ks, "second query in the same cell differs from the fresh object's value");
+      else if (pos != 0) fail(c, "same-cell-rereads-file", ks, "the second query in the same grid cell read the data file again");
+      if (q1.oc == 3 || q2.oc == 3) { o.abandon(); replay(o, c, {}, FILL_A, key); }
+    }
+    if (cells.size() != (size_t)r.w * (r.h - 1)) harness_error("cell enumeration incomplete");
+  }
   for (auto& base : bases) {
     Obj o; std::string key, k, kclr; replay(o, c, base, FILL_A, key); ++N_TRACES;
     Snap sn; sn.take(*o.g);
@@ -639,7 +693,8 @@ static void check_cache_api(const Raster& r, bool cubic, const Lattice& L) {
 // operations with special arguments (outside the design alphabet): whatever they return, they must not damage the
 // object -- afterwards every query returns the canonical value, also after CacheClear and after CacheAll.
 static void check_special(const Raster& r, bool cubic, bool ts, const Lattice& L) {
-  Cfg c{&r, cubic, ts, &L, 1};
+  Cfg c{&r, cubic, ts, &L, 1}; Cfg cplain{&r, cubic, false, &L, 1};
+  if (!usable(cplain, !ts) || !usable(c, true)) return;
   const std::vector<double>& V = canon_of(r, cubic, L);
   const int ALL = c.np() + (int)COPS.size() - 2, CLR = ALL + 1;
   struct Sp { OpT op; std::string cls, arg; };
@@ -701,11 +756,11 @@ int main(int argc, char** argv) {
 
   const int LMAX = T ? 6 : 4;
   struct Sz { int w, h; };
-  const std::vector<Sz> all_sizes = {{4, 3}, {4, 5}, {8, 9}, {2, 3}, {2, 5}, {2, 9}, {4, 9}, {8, 3}, {8, 5}};
-  const std::vector<Sz> sizes(all_sizes.begin(), all_sizes.begin() + (T ? 9 : 3));
+  const std::vector<Sz> all_sizes = {{4, 3}, {4, 5}, {8, 9}, {2, 5}, {2, 3}, {2, 9}, {4, 9}, {8, 3}, {8, 5}};
+  const std::vector<Sz> sizes(all_sizes.begin(), all_sizes.begin() + (T ? 9 : 4));
   std::vector<std::string> monos; for (int i = 0; i <= 3; ++i) for (int j = 0; i + j <= 3; ++j) monos.push_back("M" + fmti(i) + fmti(j));
 
-  ctx.bound("rasters.sizes", T ? "width {2,4,8} x height {3,5,9} (all 9)" : "4x3, 4x5, 8x9");
+  ctx.bound("rasters.sizes", T ? "width {2,4,8} x height {3,5,9} (all 9)" : "4x3, 4x5, 8x9, 2x5 (in 2x5 the rectangle corners +-90, 270 lie inside cells)");
   ctx.bound("rasters.contents", "S: (37 ix + 101 iy^2 + 7) mod 65536; U<k>: every unit raster of 4x3 and 4x5; M<i><j>: ix^i iy^j, i+j<=3; Offset/Scale A=(-108,0.003), B=(0,1)");
   ctx.bound("ops.query", "product lattice: per column {node, node+1ulp, node-1ulp, midpoint" + std::string(T ? ", 5/16 point" : " [, 5/16 point in the value/depth-1 subchecks]") +
             "} + lon 180, +-540, -0, 360, node+360, mid-360, mid+360, node-720; per row the same + lat -0; + (NaN,lon), (lat,NaN), (NaN,NaN)");
@@ -731,6 +786,8 @@ int main(int argc, char** argv) {
     for (int cubic = 0; cubic < 2; ++cubic) for (int ts = 0; ts < 2; ++ts) {
       if (ctx.deadline_hit) return;
       Explorer E; E.c = Cfg{&r, cubic != 0, ts != 0, &lattice(r.w, r.h, dense), depth};
+      { Cfg plain = E.c; plain.ts = false;
+        if (!usable(plain, false) || !usable(E.c, false)) { if (ctx.take()) { usable(plain, true); usable(E.c, true); } continue; } }
       E.canon = canon_of(r, cubic != 0, *E.c.L);
       discover(E);
       if (ctx.shard == 0 && !ctx.replaying() && depth >= 2 && (r.content == "S" || r.content == "M21")) ctx.note("states " + E.c.name() + (dense ? " dense" : "") + " depth<=" + fmti(depth) + ": " + fmti((long long)E.states.size()) + " (" + fmti(E.c.np()) + " probes, " + fmti((long long)COPS.size()) + " cache ops, " + fmti((long long)E.reps.size()) + " effect classes)");
@@ -741,7 +798,7 @@ int main(int argc, char** argv) {
   if (ctx.sub_active) {
     for (auto s : sizes) {
       run_explorer(raster(s.w, s.h, "S", 0), T, 2);
-      if (T) { run_explorer(raster(s.w, s.h, "S", 1), T, 2); if (s.w >= 4 && s.h >= 5) run_explorer(raster(s.w, s.h, "M21", 0), T, 2); }
+      if (T) { run_explorer(raster(s.w, s.h, "S", 1), T, 2); if (s.w >= 4 && s.h >= 5) for (auto& m : monos) run_explorer(raster(s.w, s.h, m, 0), T, 2); }
     }
     if (T) for (int hh : {3, 5}) for (int k = 0; k < 4 * hh; ++k) run_explorer(raster(4, hh, "U" + fmti(k), 0), true, 2);
   }
